@@ -10,7 +10,7 @@ static u8* g_tmp; static size_t g_ample = 1u << 20;
 static uint32_t rd32(FILE* f) { u8 b[4]; if (fread(b, 1, 4, f) != 4) return 0xFFFFFFFFu; return vf_rd32(b); }
 static void load_catalogue(const char* path) {
     FILE* f = fopen(path, "rb"); if (!f) { fprintf(stderr, "cannot open catalogue %s\n", path); exit(3); }
-    g_rec = (rec_t*)calloc(MAXREC, sizeof(rec_t));
+    if (!g_rec) g_rec = (rec_t*)calloc(MAXREC, sizeof(rec_t));      /* a second catalogue file is appended */
     for (;;) {
         uint32_t nl = rd32(f); if (nl == 0xFFFFFFFFu) break;
         rec_t* r = &g_rec[g_nrec]; size_t k = nl < 159 ? nl : 159; char tmp[4096];
